@@ -35,6 +35,12 @@ let handle (line : string) : string =
       string_of_bytes (model_mutate_live (cmd = "mutatelk") (z_of_int (int_of_string op)) x d v)
   | ["jpstr"; hex; delim] ->
       string_of_bytes (model_jpstr (bytes_of_hex hex) (List.hd (bytes_of_hex delim)))
+  | ["senstr"; html; hex] ->
+      string_of_bytes (hexs (sen_string (html = "1") (bytes_of_hex hex)))
+  | ["senread"; hex] ->
+      string_of_bytes (show_read (bytes_of_hex hex))
+  | ["jpread"; delim; hex] ->
+      string_of_bytes (model_jpread (List.hd (bytes_of_hex delim)) (bytes_of_hex hex))
   | ["write"; indent; mask; limit; data] ->
       let d = parse_jv { s = data; i = 0 } in
       string_of_bytes (model_write (z_of_int (int_of_string indent)) (z_of_int (int_of_string mask)) (z_of_int (int_of_string limit)) d)
